@@ -60,18 +60,19 @@ for pid in sorted(P):
                   'C04': ' and, for Decoder.decode with decode_integer, decode_huffman and the table methods it calls, by a source-to-Lean translation proved equal to the model (Props.SrcDec, Props.Src, Props.SrcHuff, Props.SrcTable)',
                   'C05': ' and, for Decoder.decode with decode_integer, decode_huffman and the table methods it calls, by a source-to-Lean translation proved equal to the model (Props.SrcDec, Props.Src, Props.SrcHuff, Props.SrcTable)',
                   'C07': ' and, for Decoder.decode, by a source-to-Lean translation proved equal to the model (Props.SrcDec)',
-                  'C15': ' and, for Encoder.add and the decoder side, by a source-to-Lean translation proved equal to the model (Props.SrcEnc, Props.SrcDec)',
+                  'C15': ' and, for Encoder.encode (sensitivity read from each header form), Encoder.add and the decoder side, by a source-to-Lean translation proved equal to the model (Props.SrcEncApi, Props.SrcEnc, Props.SrcDec)',
                   'C17': ' and, for Decoder.decode, by a source-to-Lean translation proved equal to the model (Props.SrcDec)',
                   'C12': ' and, for HuffmanEncoder.encode (accumulator, padding and the hex-string conversion to octets), by a source-to-Lean translation proved equal to the model (Props.SrcHuffEnc)',
                   'C13': ' and, for decode_huffman, by a source-to-Lean translation proved equal to the model (Props.SrcHuff)',
                   'C16': ' and, for decode_integer and its cap, by a source-to-Lean translation proved equal to the model (Props.Src)',
-                  'C03': ' and, for Encoder.add and the representations it emits (HeaderTable.search included), by a source-to-Lean translation proved equal to the model (Props.SrcEnc, Props.SrcTable, Props.SrcHuffEnc)',
-                  'C09': ' and, for the header_table_size setter and _encode_table_size_change, by a source-to-Lean translation proved equal to the model (Props.SrcEnc)',
-                  'C01': ' and, for Encoder.add with HuffmanEncoder.encode and Decoder.decode, by a source-to-Lean translation proved equal to the model (Props.SrcEnc, Props.SrcHuffEnc, Props.SrcDec)',
+                  'C03': ' and, for Encoder.add and the representations it emits (HeaderTable.search included), by a source-to-Lean translation proved equal to the model (Props.SrcEncApi, Props.SrcEnc, Props.SrcTable, Props.SrcHuffEnc)',
+                  'C09': ' and, for the header_table_size setter, _encode_table_size_change and the prologue of Encoder.encode, by a source-to-Lean translation proved equal to the model (Props.SrcEnc, Props.SrcEncApi)',
+                  'C01': ' and, for Encoder.encode and Encoder.add with HuffmanEncoder.encode and Decoder.decode, by a source-to-Lean translation proved equal to the model (Props.SrcEncApi, Props.SrcEnc, Props.SrcHuffEnc, Props.SrcDec)',
                   'C06': ' and, for HeaderTable.add/_shrink/maxsize, by a source-to-Lean translation proved equal to the model (Props.SrcTable)',
                   'C14': ' and, for HeaderTable.get_by_index, by a source-to-Lean translation proved equal to the model (Props.SrcTable)',
                   'C08': ' and, for Decoder.decode and the table setter, by a source-to-Lean translation proved equal to the model (Props.SrcDec, Props.SrcTable)',
                   'C10': ' and, for the table operations, by a source-to-Lean translation proved equal to the model (Props.SrcTable)',
+                  'C18': ' and, for Encoder.encode with _to_bytes and _dict_to_iterable over dynamically typed header forms, by a source-to-Lean translation proved equal to the model (Props.SrcEncApi)',
                   'C19': ' and, for Encoder.add and HeaderTable.search, by a source-to-Lean translation proved equal to the model (Props.SrcEnc, Props.SrcTable)'}.get(pid, '')),
     })
 m = {
